@@ -23,6 +23,10 @@ class SiteSpecHooks:
             f = site['func']
             if not ((not f.startswith('.') and recv is None and name == f) or (f.startswith('.') and recv is not None and name == f[1:])):
                 continue
+            if 'arity' in site:
+                # the call passes exactly this many arguments (positional + keyword): nothing overrides the callee's defaults
+                eng.oblige(st.fork(), 'site/%s@L%d' % (site['name'], node.lineno), E.TRUE if len(args) + len(kw) == site['arity'] else E.FALSE, kind='call-site')
+                continue
             a = site['arg']
             val = kw.get(a) if isinstance(a, str) else (args[a] if a < len(args) else kw.get(site.get('kw')))   # positional, or by its keyword
             if val is None:
